@@ -279,15 +279,20 @@ func runTop(mock reflect.Value, op Op) Out {
 	if ms, err := strconv.Atoi(os.Getenv("DRV_WATCHDOG_MS")); err == nil && ms > 0 {
 		wait = time.Duration(ms) * time.Millisecond // used while shrinking a history that already deadlocked
 	}
-	if deadlocks >= 3 && wait > 150*time.Millisecond {
-		wait = 150 * time.Millisecond
+	if deadlocks >= 3 && wait > 500*time.Millisecond && os.Getenv("DRV_WATCHDOG_MS") == "" {
+		wait = 500 * time.Millisecond // the check re-runs every timed-out history alone with a long watchdog anyway
 	}
 	select {
 	case o := <-done:
 		return o
 	case <-time.After(wait):
+		select {
+		case o := <-done: // finished while this goroutine was waiting to be scheduled: not a timeout
+			return o
+		default:
+		}
 		deadlocks++
-		return Out{K: "deadlock"}
+		return Out{K: "deadlock"} // first-stage verdict only: harness/checks/c04.py confirms it in a process of its own
 	}
 }
 
